@@ -526,9 +526,11 @@ def run(tier, seed):
     return cov, violations
 
 OPEN_ITEMS = [
-    "the premise compare_pre_b (the two views built from the unifier enumerate exactly the coincidences of the two patterns, each once) is a consequence of unify soundness + completeness on typed patterns; it is discharged in the kernel on the bounded universes (C13_overlap_exact_upto12 / _2d_upto6) and evaluated on every generated pair by the check function through the oracle; the unbounded derivation from typing is open (same status as C06_unify_complete)",
-    "float rounding of torch.isclose's threshold atol + rtol*|y| is not modelled (exact rationals); generated values keep a margin",
-    "MultiTensor.shouldStop's debugging variant (commented out in /repo by `shouldStop = allclose`) is not modelled",
+    "C13_equal_correct / C13_allclose_correct carry the boolean premise compare_pre_b (operands satisfy the representation invariant; the two views built from the unifier enumerate exactly the coincidences of the two patterns, each once). It is what soundness + completeness of unify on typed patterns give; its derivation from typing for ALL typed pairs is open (same status as C06_unify_complete). Stop-gaps: discharged in the kernel on the bounded universes (C13_overlap_exact_upto12, C13_overlap_exact_2d_upto6, C13_overlap_exact_small_shapes = exactly the universe this harness enumerates, and the _self_ variants), and evaluated inside the check function on every generated pair (verdict 30 when false: 0 on the typed stream)",
+    "bridge from C06's unify_complete (stated with denotation/eval_s) to the stride-built views of project(): needs a theory of acyclic size-preserving substitutions; not written, which is why the premise is overlap_exact_b and not unify_complete_b",
+    "float rounding of torch.isclose's threshold atol + rtol*|y| is not modelled (exact rationals); generated values keep a margin of more than 1e-9",
+    "MultiTensor.shouldStop's debugging variant (disabled in /repo by `shouldStop = allclose`) is not modelled",
+    "F23 (known finding, outside the typed domain): operands typed by different sum decompositions of one dimension; the model follows the unrepaired code",
 ]
 
 def _fix(x):
